@@ -15,7 +15,7 @@ import (
 
 // c11RawStrings: the malformed / boundary stream — renderings with one byte deleted,
 // inserted or replaced, and short random strings over the delimiter alphabet.
-func c11RawString(s *verifh.Session) string {
+func c11RawString(s *c11Lane) string {
 	r := s.Rand()
 	const alpha = "ab.:[]%019AZ-"
 	switch r.Intn(4) {
@@ -67,7 +67,7 @@ func c11SplitAnswer(hp string) string {
 // TestVerif_C11_split ties the Lean model of net.SplitHostPort (which the pre-fix getHostname
 // relied on, and on which the counter-example theorems are stated) to the stdlib.
 func TestVerif_C11_split(t *testing.T) {
-	s := verifh.New(t, "C11", "split",
+	s := c11New(t, "split",
 		"net.SplitHostPort vs model on grammar-generated authorities (names/IPv4/IPv6, zone, port, empty port) and on mutated/random delimiter strings; non-trivial = every case (distinct by line)")
 	r := s.Rand()
 	n := verifh.N(6000, 150000)
@@ -86,13 +86,13 @@ func TestVerif_C11_split(t *testing.T) {
 		}
 		s.Case("c11split "+verifh.Hex(hp), ans, true, "", true, hp+" -> "+ans)
 	}
-	s.Finish()
+	s.FinishRequire("ok", "err missing-port", "err too-many-colons", "err missing-bracket", "err unexpected-open", "err unexpected-close")
 }
 
 // TestVerif_C11_legacy ties Legacy.getHostname/getDomain (Lean) to the verbatim copy of the
 // pre-fix code, so that the `decide`d counter-examples are about code that really existed.
 func TestVerif_C11_legacy(t *testing.T) {
-	s := verifh.New(t, "C11", "legacy",
+	s := c11New(t, "legacy",
 		"verbatim pre-fix getHostname/getDomain (over the real net.SplitHostPort) vs Legacy model; same input streams as lane host")
 	r := s.Rand()
 	fixed := []string{"[::1]", "[::2]", "10.2.3.4", "99.2.3.4", "example.com.", "evil.com.", "[::1]:80", "::1", ":80", "a:b:c"}
@@ -115,13 +115,13 @@ func TestVerif_C11_legacy(t *testing.T) {
 		}
 		s.Case("c11legacy "+verifh.Hex(a), ans, true, "", true, a+" -> "+c11LegacyHostname(a)+" / "+c11LegacyDomain(a))
 	}
-	s.Finish()
+	s.FinishRequire("affected", "unaffected")
 }
 
 // TestVerif_C11_ip ties the model's isIPv4 (= net.ParseIP on ':'-free text) and the spec's
 // RFC 3986 IPv4address / IPv6address recognisers to net/netip.
 func TestVerif_C11_ip(t *testing.T) {
-	s := verifh.New(t, "C11", "ip",
+	s := c11New(t, "ip",
 		"dotted strings built from boundary octet texts (0,00,01,255,256,…; 3–5 fields) and IPv6 texts (generated from the grammar, then mutated) vs netip.ParseAddr / net.ParseIP; non-trivial = accepted by one side")
 	r := s.Rand()
 	fields := []string{"0", "00", "01", "1", "9", "10", "099", "99", "100", "199", "249", "250", "255", "256", "260", "300", "1000", "", "a", "1a", "+1", " 1"}
@@ -187,11 +187,11 @@ func TestVerif_C11_ip(t *testing.T) {
 		}
 		s.Case("c11ip "+verifh.Hex(t), b01(is4)+" "+b01(is4)+" "+b01(is6), ok, "", is4 || is6, t)
 	}
-	s.Finish()
+	s.FinishRequire("v4", "v6", "neither")
 }
 
 // c11HostCase records one getHostname/getDomain evaluation.
-func c11HostCase(s *verifh.Session, a string, valid bool) {
+func c11HostCase(s *c11Lane, a string, valid bool) {
 	var h, d string
 	if p, bad := verifh.Safely(func() { h = getHostname(a); d = getDomain(a) }); bad {
 		s.Crash("c11host "+verifh.Hex(a), a, p, "")
@@ -217,7 +217,7 @@ func c11HostCase(s *verifh.Session, a string, valid bool) {
 // TestVerif_C11_host: the real getHostname and getDomain vs the model, and vs the net/url
 // oracle on every authority net/url accepts.
 func TestVerif_C11_host(t *testing.T) {
-	s := verifh.New(t, "C11", "host",
+	s := c11New(t, "host",
 		"real getHostname/getDomain on (a) authorities drawn from the RFC 3986 grammar: names of 1–5 labels in any case incl. numeric/odd labels, trailing dot, IPv4, bracketed IPv6 (fixed + generated, with/without zone), no/empty/numeric port; (b) the same with 1–2 byte edits and random delimiter strings. Oracle on (a): lower(url.Parse(..).Hostname()), domain = IP whole / name sans trailing dot minus first label when ≥3. non-trivial = stream (a)")
 	r := s.Rand()
 	for _, a := range []string{"[::1]", "[::2]", "[::1]:80", "[fe80::1%eth0]", "[fe80::1%eth0]:8080", "10.2.3.4", "99.2.3.4", "10.2.3.4:80",
@@ -235,14 +235,14 @@ func TestVerif_C11_host(t *testing.T) {
 			c11HostCase(s, c11RawString(s), false)
 		}
 	}
-	s.Finish()
+	s.FinishRequire("oracle", "raw", "name", "name+port", "name+emptyport", "name-dot", "name-dot+port", "ip4", "ip4+port", "ip6", "ip6+port", "ip6+emptyport", "ip6-zone", "ip6-zone+port", "legacy-affected-input")
 }
 
 // TestVerif_C11_spec: the Lean SPEC (structured authority → render / specHost / specDomain /
 // RFC recogniser) against the Go side's own rendering and the net/url oracle, and the model's
 // getHostname/getDomain of the rendering against the real functions.
 func TestVerif_C11_spec(t *testing.T) {
-	s := verifh.New(t, "C11", "spec",
+	s := c11New(t, "spec",
 		"well-formed structured authorities (WfAuthority) from the grammar generator, incl. non-RFC label bytes and empty inner labels; expected = own rendering, net/url oracle host+domain, generator's RFC flag, real getHostname/getDomain of the rendering")
 	r := s.Rand()
 	n := verifh.N(15000, 300000)
@@ -281,13 +281,13 @@ func TestVerif_C11_spec(t *testing.T) {
 			verifh.Hex(txt)+" "+verifh.Hex(oh)+" "+verifh.Hex(od)+" "+rfc+" "+verifh.Hex(h)+" "+verifh.Hex(d),
 			h == oh && d == od, class, true, txt+" host="+oh+" domain="+od)
 	}
-	s.Finish()
+	s.FinishRequire("rfc", "no-url-oracle", "name", "name-dot", "ip4", "ip6", "ip6-zone", "ip6+port", "name+emptyport")
 }
 
 // TestVerif_C11_policy: every policy constructor and their compositions through the closure
 // SetRedirectPolicy installs, called directly.
 func TestVerif_C11_policy(t *testing.T) {
-	s := verifh.New(t, "C11", "policy",
+	s := c11New(t, "policy",
 		"compositions of 1–4 policies (nil, No, Max around len(via), SameHost, SameDomain, AllowedHost/Domain with 0–3 entries written as other spellings of the hosts involved, AlwaysCopy with 0–3 header names in either case) evaluated through Client.httpClient.CheckRedirect on (req host, via of 1..limit+1 hosts) pairs that are related spellings/near misses; request and via[0] headers random subsets incl. a non-canonical map key; oracle: decision from the net/url host/domain oracle, first refusal wins; non-trivial = ≥1 host policy or copy policy present")
 	r := s.Rand()
 	hdrPool := []string{"Authorization", "Cookie", "X-Custom", "X-Multi", "X-Other", "Www-Authenticate"}
@@ -381,5 +381,5 @@ func TestVerif_C11_policy(t *testing.T) {
 		s.Case(line, ans, dec == want, class, nontriv,
 			c11ShowPols(ps)+" req="+req+" via="+strings.Join(via, ",")+" -> "+c11DecisionName[dec])
 	}
-	s.Finish()
+	s.FinishRequire("pol:nil", "pol:no", "pol:max", "pol:samehost", "pol:samedomain", "pol:ahost", "pol:adomain", "pol:copy", "decision:allow", "decision:deny", "decision:uselast")
 }
